@@ -16,98 +16,155 @@ EXPLANATION = ("Lean: in the model every accessor is a function of an immutable 
 OPS = {"2": "svcrtejkJK=#!", "3": "svcnrtejkJK=#!", "4": "svcnrjkJK=#!"}
 
 
+def partner_of(ver, s, rng):
+    """a second object related to the first: the same string, another spelling of the same vector, the other minor
+    version (v3), or one metric changed; returns (kind, string, equal?)"""
+    V = core.VOCAB[ver]
+    pfx, fields = obs.parse_fields(ver, s)
+    k = rng.randrange(4)
+    if k == 0:
+        return "same", s, True
+    if k == 1:
+        f = list(fields)
+        rng.shuffle(f)
+        have = {m for m, _ in f}
+        for m in V["order"]:
+            if m not in have and V["nd"] in V["legal"][m] and rng.random() < 0.3:
+                f.insert(rng.randrange(len(f) + 1), (m, V["nd"]))
+        return "respelled", pfx + "/".join("%s:%s" % mv for mv in f), True
+    if k == 2 and ver == "3":
+        other = "CVSS:3.1/" if pfx == "CVSS:3.0/" else "CVSS:3.0/"
+        return "other-minor", other + "/".join("%s:%s" % mv for mv in fields), False
+    f = list(fields)
+    i = rng.randrange(len(f))
+    m, v = f[i]
+    alt = [x for x in V["legal"][m] if x != v and not (m not in V["mandatory"] and x == V["nd"])]
+    if not alt:
+        return "same", s, True
+    f[i] = (m, rng.choice(alt))
+    return "one-metric-changed", pfx + "/".join("%s:%s" % mv for mv in f), False
+
+
+def predictions(pairs):
+    """the Lean model's value of every accessor for each (ver, string): a reference that no state of the Python process
+    can influence; {} when the driver is unavailable or the string cannot be sent"""
+    pred = {}
+    for ver in "234":
+        mask = "".join(c for c in OPS[ver] if c not in "=#!")
+        todo = sorted({x for v, x in pairs if v == ver and core.sendable(x)})
+        if not todo:
+            continue
+        try:
+            out = core.run_driver(["C\t%s\t%s\t%s" % (ver, mask, core.enc(x)) for x in todo])
+        except Exception:  # noqa
+            continue
+        for x, line in zip(todo, out):
+            parts = line.split("\t")
+            if parts[0] == "ok" and len(parts) == len(mask) + 1:
+                pred[(ver, x)] = {c: (core.canon_unsorted(f) if c in "jk" else f) for c, f in zip(mask, parts[1:])}
+    return pred
+
+
+def run_case(ver, s, ps, equal, seq, pred=None):
+    """one accessor history on ONE object `o` (and on a related partner object, ops prefixed with '~'); returns a list of
+    (signature, what, detail).  Every result must equal the first-call result of a FRESH object for the same string."""
+    problems = []
+    o, e = obs.construct(ver, s)
+    if o is None:
+        return [("v%s:valid-vector-rejected" % ver, "accepted vector rejected", e)]
+    p, e2 = obs.construct(ver, ps)
+    if p is None:
+        return [("v%s:valid-vector-rejected" % ver, "accepted vector rejected", e2)]
+    objs = {False: (o, s), True: (p, ps)}
+    first = {False: {}, True: {}}
+    returned = []
+    on_partner = False
+    for i, c in enumerate(seq):
+        if c == "~":
+            on_partner = True
+            continue
+        obj, src = objs[on_partner]
+        who = "partner" if on_partner else "object"
+        try:
+            if c == "=":
+                val = (o == p, p == o, o != p, o == o, p != p)
+                want = (equal, equal, not equal, True, False)
+            elif c == "#":
+                ho, hp = hash(o), hash(p)       # always taken: a cached hash must not change what == says afterwards
+                val = (ho == hp) if equal else True
+                want = True
+            elif c == "!":
+                for d in returned:
+                    for k in list(d.keys()):
+                        d[k] = "MUTATED"
+                    d["extra"] = 1
+                    d.pop("baseScore", None)
+                on_partner = False
+                continue
+            else:
+                val = core.obs_field(ver, obj, c)
+                if c in "jk":
+                    val = core.canon_unsorted(val)
+                if c in "jkJK":
+                    returned.append(obj.as_json(sort=c in "JK", minimal=c in "kK"))
+                if c not in first[on_partner]:
+                    if pred and (ver, src) in pred and c in pred[(ver, src)]:
+                        first[on_partner][c] = pred[(ver, src)][c]       # the pure model's value
+                    else:
+                        w = core.obs_field(ver, obs.construct(ver, src)[0], c)
+                        first[on_partner][c] = core.canon_unsorted(w) if c in "jk" else w
+                want = first[on_partner][c]
+        except Exception as ex:  # noqa
+            problems.append(("v%s:accessor-%s-raises" % (ver, obs.NAMES.get(c, c)), "an accessor raises on an accepted vector", "step %d (%s): %r" % (i, who, ex)))
+            break
+        if val != want:
+            problems.append(("v%s:%s-not-pure" % (ver, obs.NAMES.get(c, {"=": "==", "#": "hash"}.get(c, c))),
+                             "an accessor's result changes with the call history (its own, or that of a related object)",
+                             "step %d (%s): %r, the expected (model / fresh object) value is %r" % (i, who, str(val)[:160], str(want)[:160])))
+            break
+        on_partner = False
+    return problems
+
+
 def run(ctx):
     rng = ctx.rng
     cases = []
     for _ in range(ctx.n(2500, 60000)):
         ver = rng.choice("234")
         s = core.rand_vector(ver, rng, p_absent=rng.choice([0.2, 0.6]))
-        seq = "".join(rng.choice(OPS[ver]) for _ in range(rng.randrange(5, 41)))
-        cases.append((ver, s, seq))
-    ctx.count(sum(len(c[2]) for c in cases))
-    ctx.sample({"vector": cases[0][1], "accessor_sequence": cases[0][2]})
-    # model prediction for every observable
-    pred = {}
+        kind, ps, equal = partner_of(ver, s, rng)
+        seq = "".join(("~" if rng.random() < 0.35 and c not in "=#!" else "") + c
+                      for c in (rng.choice(OPS[ver] + "=#") for _ in range(rng.randrange(5, 41))))
+        cases.append((ver, s, ps, equal, seq))
+    # short systematic histories around == and hash for every kind of partner
+    for _ in range(ctx.n(600, 6000)):
+        ver = rng.choice("2334")
+        s = core.rand_vector(ver, rng, p_absent=rng.choice([0.2, 0.6, 0.95]))
+        kind, ps, equal = partner_of(ver, s, rng)
+        for seq in ("=#=", "#=", "=~#=#=", "#~#==", "~J=J~j", "J~J~j=", "~K~kKk", "c~c=#=", "=s~s="):
+            cases.append((ver, s, ps, equal, seq if ver != "2" or "n" not in seq else seq.replace("n", "c")))
+    ctx.count(sum(len(c[4]) for c in cases))
+    ctx.sample({"vector": cases[0][1], "partner": cases[0][2], "accessor_sequence": cases[0][4]})
     for ver in "234":
         mask = "".join(c for c in OPS[ver] if c not in "=#!")
-        flat = [(v, s) for v, s, _ in cases if v == ver]
+        flat = [(v, s) for v, s, _, _, _ in cases if v == ver]
         if ctx.model_available and flat:
             n, dis, outs = core.compare_construct(flat, mask, ctx.tally)
             for v, s, mo, io_ in dis:
                 ctx.disagree("model-vs-code:v%s:accessors" % v, s, mo[:300], io_[:300])
-    for ver, s, seq in cases:
-        ctx.nontrivial((ver, s, seq))
-        rp = {"ver": ver, "s": s, "seq": seq}
-        fresh, e = obs.construct(ver, s)
-        o, _ = obs.construct(ver, s)
-        twin, _ = obs.construct(ver, s)
-        if o is None:
-            ctx.violation("v%s:valid-vector-rejected" % ver, "accepted vector rejected", s, "accepted", e, replay=rp)
-            continue
-        first = {}
-        returned = []
-        h0 = None
-        for i, c in enumerate(seq):
-            try:
-                if c == "=":
-                    val = (o == twin, o == o, o != twin)
-                    want = (True, True, False)
-                elif c == "#":
-                    val = hash(o) == hash(twin)
-                    want = True
-                elif c == "!":
-                    for d in returned:
-                        for k in list(d.keys()):
-                            d[k] = "MUTATED"
-                        d["extra"] = 1
-                        d.pop("baseScore", None)
-                    continue
-                else:
-                    val = core.obs_field(ver, o, c)
-                    if c in "jkJK":
-                        returned.append(o.as_json(sort=c in "JK", minimal=c in "kK"))
-                    if c not in first:
-                        first[c] = core.obs_field(ver, obs.construct(ver, s)[0], c)
-                    want = first[c]
-            except Exception as ex:  # noqa
-                ctx.violation("v%s:accessor-%s-raises" % (ver, obs.NAMES.get(c, c)), "an accessor raises on an accepted vector", rp, None, "step %d: %r" % (i, ex), replay=rp)
-                break
-            if val != want:
-                ctx.violation("v%s:%s-not-pure" % (ver, obs.NAMES.get(c, {"=": "==", "#": "hash"}.get(c, c))),
-                              "an accessor's result changes with the call history", rp, want, "step %d: %r" % (i, val), replay=rp)
-                break
+    pred = predictions([(v, x) for v, s, ps, _, _ in cases for x in (s, ps)]) if ctx.model_available else {}
+    ctx.extra["results_checked_against_the_model"] = len(pred)
+    for ver, s, ps, equal, seq in cases:
+        ctx.nontrivial((ver, s, ps, seq))
+        rp = {"ver": ver, "s": s, "partner": ps, "equal": equal, "seq": seq}
+        for sig, what, detail in run_case(ver, s, ps, equal, seq, pred):
+            ctx.violation(sig, what, rp, None, detail, replay=rp)
 
 
 def replay(data):
     r = data["replay"]
-
-    class C:
-        v = []
-        model_available = False
-
-        def violation(self, sig, what, *a, **k):
-            self.v.append(sig + ": " + what + " " + repr(a[2:3]))
-    # re-run the single case
-    import random
-    c = C()
-    ver, s, seq = r["ver"], r["s"], r["seq"]
-    fresh, _ = obs.construct(ver, s)
-    o, _ = obs.construct(ver, s)
-    base = {}
-    bad = []
-    returned = []
-    for i, ch in enumerate(seq):
-        if ch in "=#":
-            continue
-        if ch == "!":
-            for d in returned:
-                for k in list(d.keys()):
-                    d[k] = "MUTATED"
-            continue
-        val = core.obs_field(ver, o, ch)
-        if ch in "jkJK":
-            returned.append(o.as_json(sort=ch in "JK", minimal=ch in "kK"))
-        want = core.obs_field(ver, obs.construct(ver, s)[0], ch)
-        if val != want:
-            bad.append("step %d %s: %r != fresh %r" % (i, ch, val[:120], want[:120]))
-    return not bad, "accessor sequence %r on CVSS%s(%r): %s" % (seq, ver, s, "; ".join(bad) or "every call returned the fresh-object result")
+    ps = r.get("partner", r["s"])
+    equal = r.get("equal", True)
+    bad = run_case(r["ver"], r["s"], ps, equal, r["seq"], predictions([(r["ver"], r["s"]), (r["ver"], ps)]))
+    return not bad, "accessor sequence %r on CVSS%s(%r) with partner %r: %s" % (
+        r["seq"], r["ver"], r["s"], ps, "; ".join("%s: %s" % (b[0], b[2]) for b in bad) or "every call returned the fresh-object result")
